@@ -138,6 +138,15 @@ def rule_r2_r3_r4(ctx, rep):
             rep.add("R2", fi.qname, call, f"cannot relate the insertion index `{norm(idx)}` to the position of the references node", fi.loc(call))
             continue
         v = base.id
+        enum_adv = False
+        for lp_ in ast.walk(fi.node):
+            if isinstance(lp_, ast.For) and isinstance(lp_.iter, ast.Call) and isinstance(lp_.iter.func, ast.Name) and lp_.iter.func.id == "enumerate" \
+                    and isinstance(lp_.target, ast.Tuple) and lp_.target.elts and isinstance(lp_.target.elts[0], ast.Name) and lp_.target.elts[0].id == v \
+                    and any(x is call for x in ast.walk(lp_)):
+                start = lp_.iter.args[1] if len(lp_.iter.args) > 1 else next((k.value for k in lp_.iter.keywords if k.arg == "start"), None)
+                if isinstance(start, ast.Name):
+                    v = start.id  # the counter starts at this variable and advances by one per element
+                    enum_adv = True
         defs = [x for x in ast.walk(fi.node) if isinstance(x, ast.Assign) and any(isinstance(t, ast.Name) and t.id == v for t in x.targets)]
         pos_defs = []
         for d in defs:
@@ -169,7 +178,7 @@ def rule_r2_r3_r4(ctx, rep):
         for n in ast.walk(fi.node):
             if isinstance(n, ast.For) and any(x is call for x in ast.walk(n)):
                 loop = n
-        adv = False
+        adv = enum_adv
         if loop is not None:
             if offset_var is not None and isinstance(loop.iter, ast.Call) and isinstance(loop.iter.func, ast.Name) and loop.iter.func.id == "enumerate" \
                     and isinstance(loop.target, ast.Tuple) and norm(loop.target.elts[0]) == norm(offset_var):
